@@ -17,7 +17,12 @@ if "--cfg" in sys.argv:
     m.LEXICAL_IGNORE_COMMENT = bool(cfg_idx & 1)
     sys.modules["metasequoia_sql.config"] = m
 sys.path.insert(0, os.path.dirname(os.path.abspath(__file__)))
+if os.environ.get("MSQ_COVER_DIR"):
+    import cover  # noqa: E402  (line coverage of the implementation under this worker's requests: evidence only)
+    cover.start()
 import canon  # noqa: E402
+if os.environ.get("MSQ_COVER_DIR"):
+    cover.watch_wrap_sites()
 
 
 class Hang(BaseException):
